@@ -453,6 +453,25 @@ def echo_part(res, rng, tier, P):
         v = rng.choice([b'v', b'\xff', b'\xc3', b'a\xe2\x80', b'\xed\xa0\x80', P.scrub(rng.bytes(20), bb)])
         post(b, b'--' + bb + CRLF + hs + CRLF + CRLF + v + CRLF + b'--' + bb + b'--' + CRLF, rng.choice(entries), 'echo other', False)
 
+    # second audit (props/c16_features.py): decoy header names, multi-byte texts in every alignment, part headers a new feature would
+    # read, real clients' boundaries, two and three requests in a row with related boundaries
+    def post_parts(b, parts, entry, kind, fields, raw=None):
+        bb = b.encode()
+        if not P.text_ok(b) or '"' in b: return
+        if raw is None:
+            body = b''
+            for hs, value in parts:
+                hl = [n.encode() + b': ' + v.encode() for n, v in hs]
+                if bb in value or any(bb in x for x in hl): return        # outside the hypothesis class
+                body += b'--' + bb + CRLF + b''.join(x + CRLF for x in hl) + CRLF + value + CRLF
+            body += b'--' + bb + b'--' + CRLF
+        else: body = raw
+        if len(body) >= 8000 and entry in ('proc', 'preq'): entry = 'aexec'    # the request buffer of the server loop is C04's matter
+        want = fields if fields in (None, False) else b''.join(n.encode() + b' is ' + v + b' \r\n' for n, v in fields)
+        post(b, body, entry, kind, want)
+    from props import c16_features as F
+    F.echo_extra(rng.fork('second audit'), quick, P, {'entries': entries, 'post_parts': post_parts})
+
     results = K.run_batches([(tree, cases)], with_model=True)
     for (c, r, il, ml), want in zip(results, wants):
         res.evaluations += 1; res.programs += 1
